@@ -838,7 +838,12 @@ double Matrix::Determinant() const
 		}
 		double det = 0.0;
 		for(unsigned int j = 0; j < columns; j++)
+		{
+			// A vanishing entry of the first row contributes nothing, whatever its cofactor (which may overflow).
+			if(factors[j] == 0.0)
+				continue;
 			det += factors[j] * sub_matrices[j].Determinant();
+		}
 		return det;
 	}
 }
